@@ -6,6 +6,7 @@ passes, and the stream writes.  Layout arithmetic is the generated code (Gen/Sit
 import ElfioVerif.Model.Load
 import ElfioVerif.Model.OStream
 import ElfioVerif.Gen.SitesWriter
+import ElfioVerif.Gen.SitesC16
 namespace ElfioVerif
 open Gen
 
@@ -297,6 +298,28 @@ def saveSection (c : Cls) (enc : Enc) (shoff : BitVec 64) (shentsize : BitVec 16
     (os.adjust b.offset.toInt).write ((b.data.getD []).take b.size.toNat)
   else os
 
+/-- What the driver executes for `saveSection`: once the stream has failed none of the four stream
+    operations changes it, so the compiled model does not build their arguments (the header record,
+    the copy of the data).  Equal to `saveSection` by the proved equation below. -/
+def saveSectionImpl (c : Cls) (enc : Enc) (shoff : BitVec 64) (shentsize : BitVec 16) (os : OStream) (b : SecBuf) : OStream :=
+  if os.fail then os else
+  let hp : Int := shoff.toInt + (Int.ofNat shentsize.toNat) * (Int.ofNat b.index)
+  let os := (os.adjust hp).write (encodeShdr c enc b)
+  if b.stype != BitVec.ofNat 32 SHT_NOBITS && b.stype != BitVec.ofNat 32 SHT_NULL && b.size != 0 && b.data.isSome then
+    (os.adjust b.offset.toInt).write ((b.data.getD []).take b.size.toNat)
+  else os
+
+@[csimp] theorem saveSection_eq_saveSectionImpl : @saveSection = @saveSectionImpl := by
+  funext c enc shoff shentsize os b
+  unfold saveSectionImpl
+  cases h : os.fail with
+  | true =>
+    simp only [↓reduceIte]
+    unfold saveSection
+    simp only [OStream.adjust_of_fail h, OStream.write_of_fail h]
+    split <;> rfl
+  | false => simp only [Bool.false_eq_true, ↓reduceIte]; rfl
+
 /-- the `get_data()` calls of `save_sections` (they make lazily loaded data resident); the data
     request only happens for sections that would be written -/
 def residentForSave (c : Cls) (tr : List Trans) : List SecBuf → LoadSt → List SecBuf → List SecBuf × LoadSt
@@ -322,6 +345,47 @@ structure SaveRes where
   obj : Obj
   os : OStream
   ok : Bool
+
+/-- One stream operation of the write phase of `save` (C16). -/
+inductive StreamOp
+  | seekp (p : Int)
+  | write (bs : Bytes)
+  | adjust (offset : Int)
+  deriving Repr
+
+def StreamOp.run (os : OStream) : StreamOp → OStream
+  | .seekp p => os.seekp p
+  | .write bs => os.write bs
+  | .adjust off => os.adjust off
+
+def runStreamOps (ops : List StreamOp) (os : OStream) : OStream := ops.foldl StreamOp.run os
+
+/-- The write phase of `elfio::save(std::ostream&)`, entered when the three layout passes have
+    succeeded (`is_still_good` is true): `save_header`, `save_sections`, `save_segments` chained
+    with short-circuit `&&`, `stream.flush()` (no effect on a stream without buffer), and the
+    final `return is_still_good && !stream.fail()`.  The four result expressions are the
+    generated ones (Gen/SitesC16.lean). `h` is the header after layout, `secs`/`segs` the laid
+    out sections/segments, `pos` the final cursor. -/
+def saveWrite (o : Obj) (h : Bytes) (secs : List SecBuf) (segs : List Seg) (pos : BitVec 64) (os : OStream) : SaveRes :=
+  let c := o.cls; let e := o.enc
+  -- save_header: header->save(stream) = seekp, write, `return stream.good()`
+  let os := (os.seekp (trApply o.trans 0)).write h
+  let o := { o with hdr := some h, secs := secs, segs := segs, curPos := pos }
+  let good := match c with
+    | .c32 => save_header_result32 (!os.fail)
+    | .c64 => save_header_result (!os.fail)
+  if !good then { obj := o, os := os, ok := save_result good os.fail } else
+  -- save_sections
+  let shoff := Hdr.e_shoff c e h
+  let (secs, ls) := residentForSave c o.trans secs { st := o.stream } []
+  let o := { o with secs := secs, stream := ls.st }
+  let os := secs.foldl (saveSection c e shoff (Hdr.e_shentsize c e h)) os
+  let good := save_sections_result
+  if !good then { obj := o, os := os, ok := save_result good os.fail } else
+  -- save_segments
+  let os := segs.foldl (saveSegment c e (Hdr.e_phoff c e h) (Hdr.e_phentsize c e h)) os
+  let good := save_segments_result
+  { obj := o, os := os, ok := save_result good os.fail }
 
 /-- `elfio::save(std::ostream&)` -/
 def save (o : Obj) (os : OStream) : M SaveRes := do
@@ -363,15 +427,7 @@ def save (o : Obj) (os : OStream) : M SaveRes := do
     -- layout_section_table
     let pos := lst_cursor pos (lst_error pos)
     let h := Hdr.set_shoff c e h pos.toNat
-    -- save_header
-    let os := (os.seekp (trApply o.trans 0)).write h
-    let o := { o with hdr := some h, secs := secs, segs := segs, curPos := pos }
-    if os.fail then pure { obj := o, os := os, ok := false } else
-    let shoff := Hdr.e_shoff c e h
-    let (secs, ls) := residentForSave c o.trans secs { st := o.stream } []
-    let o := { o with secs := secs, stream := ls.st }
-    let os := secs.foldl (saveSection c e shoff (Hdr.e_shentsize c e h)) os
-    let os := segs.foldl (saveSegment c e (Hdr.e_phoff c e h) (Hdr.e_phentsize c e h)) os
-    pure { obj := o, os := os, ok := !os.fail }
+    -- save_header, save_sections, save_segments, flush, result
+    pure (saveWrite o h secs segs pos os)
 
 end ElfioVerif
